@@ -129,7 +129,7 @@ def run(R, job):
         return core.HTMLDependency("d%d" % counter[0], "1.0")
 
     def scalar():
-        return r.choice([None, True, False, 3, 2.5, r.choice(STR), _jsx.jsx("JSX_" + r.choice(["a", "fn1", "Z"])), [1, "x", None], {"k": 1, "b": "v"}, ["n", [True, {"z": None}]], (0, 10), ("t", (1, 2)), {"range": (0, 1)}, [("a",)], {"cb": _jsx.jsx("JSX_cb"), "n": 1}, [_jsx.jsx("JSX_a"), "s"], {"deep": {"f": _jsx.jsx("JSX_f")}}, {"style": "compact"}, {"style": 2, "k": {"style": {"a": 1}}}, [{"style": None}], {"className": "c", "children": [1]}])
+        return r.choice([None, True, False, 3, 2.5, r.choice(STR), _jsx.jsx("JSX_" + r.choice(["a", "fn1", "Z"])), [1, "x", None], {"k": 1, "b": "v"}, ["n", [True, {"z": None}]], (0, 10), ("t", (1, 2)), {"range": (0, 1)}, [("a",)], {"cb": _jsx.jsx("JSX_cb"), "n": 1}, [_jsx.jsx("JSX_a"), "s"], {"deep": {"f": _jsx.jsx("JSX_f")}}, {"style": "compact"}, {"style": 2, "k": {"style": {"a": 1}}}, [{"style": None}], {"className": "c", "children": [1]}, [True, False, 1], (False,), [0, 1.5, True], {"on": [False, 2]}, [[True], 7]])
 
     def tag(d):
         kids = [child(d - 1) for _ in range(r.choice([0, 1, 2]))]
